@@ -14,14 +14,14 @@ from .harness import EXCEPTION_KINDS, FALSY_VALUES
 
 PLUGIN_DIR = os.path.join(os.path.dirname(os.path.abspath(__file__)), "plugins")
 SIM_KINDS = {"pool": "SimPool", "decorator": "SimDecorator", "controller": "SimController"}
-VARIANTS = ["Plain", "Trio", "Asyncio", "Thread"]
+VARIANTS = ["Plain", "Trio", "Asyncio", "Thread", "Plain", "Trio", "Asyncio", "Thread", "Twin"]
 CONFIG_FAULTS = ["unknown-section", "missing-pipeline", "unknown-tag", "python-tag", "ctor-raises", "unknown-type", "unknown-extension", "missing-file", "is-directory", "truncated", "py-raises", "py-syntax", "empty-file"]
 
 
 def _sim_element(rng, kind, idx, forms):
     var = rng.choice(VARIANTS)
-    e = {"cls": SIM_KINDS[kind] + var, "sim": True, "service": var != "Plain", "flavour": {"Trio": "trio", "Asyncio": "asyncio", "Thread": "threading"}.get(var), "name": "e%d" % idx, "form": rng.choice(forms), "hb": rng.choice([0.25, 0.5, 1.0])}
-    if var in ("Trio", "Asyncio") and rng.random() < 0.3:
+    e = {"cls": SIM_KINDS[kind] + var, "sim": True, "service": var != "Plain", "flavour": {"Trio": "trio", "Asyncio": "asyncio", "Thread": "threading", "Twin": "asyncio"}.get(var), "name": "e%d" % idx, "form": rng.choice(forms), "hb": rng.choice([0.25, 0.5, 1.0])}
+    if var in ("Trio", "Asyncio", "Twin") and rng.random() < 0.3:
         e["park"] = True  # idles on an awaitable nobody else references until it is cancelled
     if rng.random() < 0.12:
         e["empty"] = True  # a container-like element that is empty - falsy - when it is constructed
@@ -99,6 +99,8 @@ def _kwargs(e, fault_here):
             kw["park"] = True
         if e.get("empty"):
             kw["empty"] = True
+        if e.get("eqkey"):
+            kw["eqkey"] = e["eqkey"]
         if fault_here and fault_here["kind"] == "config" and fault_here["what"] == "ctor-raises":
             kw["fail_init"] = fault_here.get("ctor_exc", "ValueError")
         if fault_here and fault_here["kind"] == "service":
@@ -169,7 +171,7 @@ def render_yaml(sc):
                 continue
             if form == "tag-seq":
                 order = SEQ_ORDER["sim"] if e["sim"] else SEQ_ORDER.get(e["cls"])
-                if order is None or any(k not in order for k in kw) or (e["sim"] and ("fail_after" in kw or "fail_init" in kw or "park" in kw or "empty" in kw)):
+                if order is None or any(k not in order for k in kw) or (e["sim"] and ("fail_after" in kw or "fail_init" in kw or "park" in kw or "empty" in kw or "eqkey" in kw)):
                     form = "tag-map"
                 else:
                     vals = [kw[k] for k in order if k in kw]
